@@ -310,6 +310,11 @@ class Interp:
     if modname in self.libs:
       return self.libs[modname]
     path = self.module_path(modname)
+    if path is None and os.path.isdir(os.path.join(REPO, modname.replace(".", "/"))):
+      # namespace package (no __init__.py)
+      mod = IModule(Env(None, "module", qual=modname))
+      self.modules[modname] = mod
+      return mod
     if path is None:
       raise Unsupported(f"import of unknown module {modname}")
     if modname in self.source_overrides:
